@@ -9,6 +9,7 @@ same class names). Four defects were repaired in /repo (bitwise operators, sub-m
 durations, IN-set members, `::time`): their theorems hold in full.
 -/
 import OG.C12.YaccShape
+import OG.C12.Durs
 
 namespace OG.C12
 open OG.Gen.C12
@@ -312,24 +313,41 @@ theorem allNodes_goodAll (e : Expr) (hs : allNodes shapeOK e = true) (hn : allNo
 /-- **the property for conditions**, under hypotheses that exclude exactly the defect classes:
 a tree the statement parser built that shows none of them is re-parsed from its printout as
 itself — same operators, same grouping, same literals with their types, same identifiers and
-regular expressions. `h1`–`h9` are the defect classes of known_findings.jsonl; `h10` is not a
-defect but a fact about scanner output that is not proved here (a DURATIONVAL never starts with
-`-`, so a DurationLiteral of the grammar is not negative) — the driver checks it on every case
-it runs. That the tree has the shape `YaccOut` (operator chains, literal ranges, canonical key
-sets) is proved (`yaccParse_out`), and so is the read-back of key sets (`setRT_of_canon`). -/
+regular expressions. `h1`–`h9` are the defect classes of known_findings.jsonl. `hp` says that no
+DURATIONVAL token starts with `-`: it holds of everything the scanner delivers (`yaccLex_plain`, so
+`expr_roundtrip_text` below has no such hypothesis), and with it every DurationLiteral of the tree
+lies in [0, MaxInt64] (`yaccParse_durs`). That the tree has the shape `YaccOut` (operator chains,
+literal ranges, canonical key sets) is proved (`yaccParse_out`), and so is the read-back of key sets
+(`setRT_of_canon`). -/
 theorem expr_roundtrip_partial (toks : List Tok) (e : Expr)
-    (hy : yaccParse toks = some e)
+    (hy : yaccParse toks = some e) (hp : Plain toks)
     (h1 : NoMixedAndOr e = true) (h2 : NoUnaryMinusOperand e = true) (h3 : NoLikeArith e = true)
     (h4 : NoIntegralNumberLit e = true) (h5 : NoInfNanIdent e = true) (h6 : CallNamesPlain e = true)
-    (h7 : RegexPlacementOK e = true) (h8 : NoTagTypedBeforeDiv e = true) (h9 : TypesReadBack e = true)
-    (h10 : DursInRange e = true) :
+    (h7 : RegexPlacementOK e = true) (h8 : NoTagTypedBeforeDiv e = true) (h9 : TypesReadBack e = true) :
     parseExpr (print e) = some e := by
+  have h10 : DursInRange e = true := yaccParse_durs toks e hp hy
   have hout := yaccParse_out toks e hy
   simp only [YaccOut, Bool.and_eq_true] at hout
   simp only [RegexPlacementOK, Bool.and_eq_true] at h7
   obtain ⟨hc, ha⟩ := good_canon_atoms e
     (allNodes_goodAll e hout.1.1 hout.1.2 h1 h2 h3 h4 h5 h6 h7.2 h8 h9 h10)
   exact parseExpr_print e hc ha h7.1 hout.2
+
+/-- **the property for the text of a condition**: the tokens are what `YyParser.Lex` makes of the
+text after `WHERE` (transcribed scanner), the tree is what the statement grammar builds from them. -/
+theorem expr_roundtrip_text (cs : List Char) (toks : List Tok) (e : Expr)
+    (hl : yaccLex cs = some toks) (hy : yaccParse toks = some e)
+    (h1 : NoMixedAndOr e = true) (h2 : NoUnaryMinusOperand e = true) (h3 : NoLikeArith e = true)
+    (h4 : NoIntegralNumberLit e = true) (h5 : NoInfNanIdent e = true) (h6 : CallNamesPlain e = true)
+    (h7 : RegexPlacementOK e = true) (h8 : NoTagTypedBeforeDiv e = true) (h9 : TypesReadBack e = true) :
+    parseExpr (print e) = some e :=
+  expr_roundtrip_partial toks e hy (yaccLex_plain cs toks hl) h1 h2 h3 h4 h5 h6 h7 h8 h9
+
+/-- without the token hypothesis the token-level statement is false: a DURATIONVAL token no scanner
+produces (`-1ns`) is a negative DurationLiteral, printed `-1ns`, which `ParseExpr` reads as … the same
+literal; the value that breaks is MinInt64 (`-9223372036854775807ns1ns`), whose printout does not parse. -/
+theorem durToks_needed : ∃ toks e, yaccParse toks = some e ∧ DursInRange e = false := by
+  refine ⟨[.ident ['a'], .sym .eq, .dur "-1ns".toList], .binary .eq (.varRef ['a'] .unknown) (.dur (-1)), by decide, by decide⟩
 
 /-- non-vacuity: a condition that mixes four precedence levels, a quoted identifier, a typed
 reference, a call with a regex argument, a duration, a string with escapes and an IN set
